@@ -601,6 +601,78 @@ func c02Units(ctx *core.Ctx) []core.Unit {
 		}
 		r.Sample(map[string]interface{}{"pattern": "AABCB: openings 0,1 share the pointer of A; 2 and 4 share B; 3 is C", "variants": "honest; last y + 1; second B claims C's value"})
 	}})
+	us = append(us, core.Unit{Name: "one proof object edited in place between verifications and serialisations", Run: func(ctx *core.Ctx, r *core.Result) {
+		needRef()
+		c := conf()
+		for bi_, s := range bases[:4] {
+			base, okb := honestTuple(r, c, s)
+			other, oko := honestTuple(r, c, bases[(bi_+1)%len(bases)])
+			if !okb || !oko {
+				continue
+			}
+			Cs := make([]*banderwagon.Element, len(base.Cs))
+			ys := make([]*fr.Element, len(base.ys))
+			for i := range Cs {
+				e, y := base.Cs[i], base.ys[i]
+				Cs[i], ys[i] = &e, &y
+			}
+			// ONE object, used throughout
+			p := &multiproof.MultiProof{D: base.D, IPA: ipa.IPAProof{L: append([]banderwagon.Element(nil), base.L...), R: append([]banderwagon.Element(nil), base.R...), A_scalar: base.A}}
+			verify := func(desc string, want bool) {
+				var ok bool
+				var err error
+				if !guard(r, "c02.panic", "CheckMultiProof", desc, func() {
+					ok, err = multiproof.CheckMultiProof(common.NewTranscript(base.label), c, p, Cs, ys, append([]uint8(nil), base.zs...))
+				}) {
+					return
+				}
+				r.Evals++
+				r.Nontrivial++
+				if (ok && err == nil) != want {
+					vio(r, "c02.history", "CheckMultiProof", fmt.Sprintf("base %d, one proof object: %s", bi_, desc), fmt.Sprintf("accept=%v (the decision depends on the present content of the proof object only)", want), fmt.Sprintf("accept=%v err=%v", ok, err))
+				}
+			}
+			bytesOf := func() string { return hx(proofBytes(p)) }
+			verify("honest", true)
+			b0 := bytesOf()
+			edits := []struct {
+				name       string
+				do, undo   func()
+				stillValid bool
+			}{
+				{"D := D of another proof", func() { p.D = other.D }, func() { p.D = base.D }, sameEl(&other.D, &base.D)},
+				{"D := 2*D (in place)", func() { p.D.Double(&p.D) }, func() { p.D = base.D }, false},
+				{"L[0] := L[1]", func() { p.IPA.L[0] = p.IPA.L[1] }, func() { p.IPA.L[0] = base.L[0] }, sameEl(&base.L[0], &base.L[1])},
+				{"R[7] := -R[7] (in place)", func() { p.IPA.R[7].Neg(&p.IPA.R[7]) }, func() { p.IPA.R[7] = base.R[7] }, false},
+				{"a := a+1", func() { one := fr.One(); p.IPA.A_scalar.Add(&p.IPA.A_scalar, &one) }, func() { p.IPA.A_scalar = base.A }, false},
+				{"D re-represented (projective, same element)", func() { p.D = reprOf(p.D, reprProjFlip) }, func() { p.D = base.D }, true},
+			}
+			cur := func() tuple {
+				t := base.clone()
+				t.D, t.A = p.D, p.IPA.A_scalar
+				t.L = append([]banderwagon.Element(nil), p.IPA.L...)
+				t.R = append([]banderwagon.Element(nil), p.IPA.R...)
+				return t
+			}
+			for _, e := range edits {
+				e.do()
+				// expected: the reference verifier's decision on the present content; the bytes change exactly
+				// when a group element or the scalar changed as a value
+				acc, _ := decideRef(cur())
+				e.stillValid = sameTuple(cur(), base)
+				verify("after "+e.name, acc)
+				if b := bytesOf(); (b == b0) != e.stillValid {
+					vio(r, "c02.history", "MultiProof.Write", fmt.Sprintf("base %d, one proof object after %s", bi_, e.name), "the serialisation reflects the present content of the proof object", "bytes of an earlier content (or a change where the element is the same)")
+				}
+				verify("again after "+e.name, acc)
+				e.undo()
+				verify("after undoing "+e.name, true)
+				if bytesOf() != b0 {
+					vio(r, "c02.history", "MultiProof.Write", fmt.Sprintf("base %d, one proof object after undoing %s", bi_, e.name), "the honest bytes", "different bytes")
+				}
+			}
+		}
+	}})
 	us = append(us, core.Unit{Name: "shape errors", Run: func(ctx *core.Ctx, r *core.Result) {
 		needRef()
 		c := conf()
